@@ -222,7 +222,7 @@ RECURSIVE DropLocals(_, _, _, _)
 DropLocals(st, d, j, why) ==
     IF j = 0 THEN st
     ELSE IF st.ents[j].blk = d /\ ~st.ents[j].moved /\ st.ents[j].k # "value" /\ st.ents[j].k # "closure"
-         THEN DropLocals(DropEnt(st, j, why), d, j - 1, why)
+         THEN DropLocals(TLCEval(DropEnt(st, j, why)), d, j - 1, why)
          ELSE DropLocals(st, d, j - 1, why)
 
 (***************************************************************************)
@@ -496,8 +496,9 @@ Step(st, s) ==
     IN [s0 EXCEPT !.n = st.n + 1]
 
 RECURSIVE RunFrom(_, _, _)
-RunFrom(st, seq, i) == IF i > Len(seq) \/ ~st.ok THEN st ELSE RunFrom(Step(st, seq[i]), seq, i + 1)
-Run(root, seq) == RunFrom(Init0(root), seq, 1)
+\* TLCEval: operator arguments are lazy in TLC; without forcing them every level re-evaluates the whole prefix
+RunFrom(st, seq, i) == IF i > Len(seq) \/ ~st.ok THEN st ELSE RunFrom(TLCEval(Step(st, seq[i])), seq, i + 1)
+Run(root, seq) == RunFrom(TLCEval(Init0(root)), seq, 1)
 
 (***************************************************************************)
 (* Bounded exploration: which statements are tried next.                   *)
@@ -624,7 +625,7 @@ Account(st, s, s1) ==
 RECURSIVE CloseAll(_, _)
 CloseAll(st, acc) ==
     IF st.phase = "done" \/ ~st.ok THEN acc
-    ELSE LET c == ClosingCand(st) IN CloseAll(Step(st, c), Append(acc, c))
+    ELSE LET c == TLCEval(ClosingCand(st)) IN CloseAll(TLCEval(Step(st, c)), TLCEval(Append(acc, c)))
 
 Prefix(seq, n) == SubSeq(seq, 1, n)
 IsClosing(s) == s.op \in {"ExitClosure", "CloseBlock", "End"}
@@ -635,7 +636,7 @@ StripClosing(seq) == IF Len(seq) > 0 /\ IsClosing(seq[Len(seq)]) /\ seq[Len(seq)
                      THEN StripClosing(Prefix(seq, Len(seq) - 1)) ELSE seq
 
 WithClosing(root, seq) ==
-    LET st == Run(root, seq) IN IF st.ok THEN seq \o CloseAll([st EXCEPT !.phase = "closing"], <<>>) ELSE seq
+    LET st == TLCEval(Run(root, seq)) IN IF st.ok THEN seq \o CloseAll(TLCEval([st EXCEPT !.phase = "closing"]), <<>>) ELSE seq
 
 UseIdx(seq) == CHOOSE i \in 1..Len(seq) : seq[i].op = "Use"
 
@@ -655,7 +656,7 @@ BackKeep(hist, lens, i, need, keep) ==
     ELSE LET lo == IF i = 1 THEN lens[1] - (lens[1] - 1) ELSE lens[i - 1] + 1      \* first entity is the root (not created by a statement)
              cr == (IF i = 1 THEN 2 ELSE lens[i - 1] + 1)..lens[i]
          IN IF cr \cap need # {}
-            THEN BackKeep(hist, lens, i - 1, need \cup (IF hist[i].h = 0 THEN {} ELSE {hist[i].h}), keep \cup {i})
+            THEN BackKeep(hist, lens, i - 1, TLCEval(need \cup (IF hist[i].h = 0 THEN {} ELSE {hist[i].h})), TLCEval(keep \cup {i}))
             ELSE BackKeep(hist, lens, i - 1, need, keep)
 
 ControlB(root, hist) ==
@@ -671,7 +672,7 @@ ControlB(root, hist) ==
     IN WithClosing(root, pre \o <<prod, St("Use", 0, "", "")>>)
 
 GoodControl(root, c) ==
-    Len(c) > 0 /\ LET st == Run(root, c) IN st.ok /\ st.phase = "done" /\ ~st.hazard /\ ~st.rej
+    Len(c) > 0 /\ LET st == TLCEval(Run(root, c)) IN st.ok /\ st.phase = "done" /\ ~st.hazard /\ ~st.rej
 
 ControlOf(root, hist, st) ==
     IF root \in {"unsend", "unsendpool"} THEN [kind |-> "send", root |-> IF root = "unsend" THEN "bump" ELSE "pool", prog |-> hist]
